@@ -216,8 +216,15 @@ class PWLCalibration(keras.layers.Layer):
                        "'missing_output_value': " + str(missing_output_value))
     if input_keypoints is None:
       raise ValueError("'input_keypoints' can't be None")
+    if is_cyclic and kernel_initializer == "equal_slopes":
+      raise ValueError("'equal_slopes' initialization is not supported "
+                       "together with 'is_cyclic'.")
     if monotonicity is None:
       raise ValueError("'monotonicity' can't be None. Did you mean '0'?")
+    if ((clamp_min or clamp_max) and
+        not utils.canonicalize_monotonicity(monotonicity)):
+      raise ValueError("'clamp_min'/'clamp_max' require a monotonic calibrator: "
+                       "clamping is not implemented for non monotonic functions.")
     if convexity not in ("none",
                          0) and input_keypoints_type == "learned_interior":
       raise ValueError("Cannot set input_keypoints_type to 'learned_interior'"
